@@ -288,7 +288,10 @@ class _BaseMMC(MahalanobisMixin):
   def _grad_projection(self, grad1, grad2):
     grad2 = grad2 / np.linalg.norm(grad2)
     gtemp = grad1 - np.sum(grad1 * grad2) * grad2
-    gtemp /= np.linalg.norm(gtemp)
+    norm = np.linalg.norm(gtemp)
+    if norm > 0:
+      # (parallel gradients leave no direction to move in: a zero step)
+      gtemp /= norm
     return gtemp
 
   def _D_objective(self, neg_pairs, w):
